@@ -381,6 +381,7 @@ def _c07(tier, rng):
     yield ("systematic single edits of seed vectors (all levels, versions, full and partial), each at its own and another decoder; random bytes; separator storms",
            S.parser3_ops(rng, 18 if tier == "quick" else 300, heavy, nrandom=3000 if tier == "quick" else 200000), False)
     yield ("well-formed vectors: permutations, omissions, explicit X", S.accepted3_ops(rng, 20000 if tier == "quick" else 500000), False)
+    yield ("double edits of seed vectors (two independent defects)", S.double_edits3(rng, 9, 200 if tier == "quick" else 3000), False)
 
 
 _reg(DecodeProp(
@@ -398,6 +399,7 @@ def _c08(tier, rng):
     yield ("systematic edits of canonical v2 vectors (all four group patterns) at all three decoders; group reorderings and partial groups; random bytes",
            S.parser2_ops(rng, 12 if tier == "quick" else 200, heavy, nrandom=3000 if tier == "quick" else 200000), False)
     yield ("canonical vectors of every pattern", S.accepted2_ops(rng, 20000 if tier == "quick" else 500000), False)
+    yield ("double edits of canonical vectors", S.double_edits2(rng, 8, 100 if tier == "quick" else 1500), False)
 
 
 def _c09(tier, rng):
@@ -447,6 +449,9 @@ def _c11(tier, rng):
            S.parser3_ops(rng, 18 if tier == "quick" else 300, heavy, nrandom=2000 if tier == "quick" else 100000), False)
     yield ("v2 single-edit neighbourhood incl. partial groups and reorderings",
            S.parser2_ops(rng, 12 if tier == "quick" else 200, heavy, nrandom=2000 if tier == "quick" else 100000), False)
+    yield ("v3 double edits (two independent defects, any order) at the seed's and another decoder",
+           S.double_edits3(rng, 12 if tier == "quick" else 200, 300 if tier == "quick" else 1500), False)
+    yield ("v2 double edits at all three decoders", S.double_edits2(rng, 8 if tier == "quick" else 150, 150 if tier == "quick" else 800), False)
 
 
 _reg(DecodeProp(
@@ -584,9 +589,10 @@ def _c14(tier, rng):
 
 
 _reg(DecodeProp(
-    "C14", ["CvssVerif.Props.C14"],
+    "C14", ["CvssVerif.Props.C14", "CvssVerif.Proofs.Views3"],
     ["CvssVerif.Props.C14.view3", "CvssVerif.Props.C14.view3_encode", "CvssVerif.Props.C14.queries_congr3",
-     "CvssVerif.Props.C14.view2", "CvssVerif.Props.C14.queries_congr2"],
+     "CvssVerif.Props.C14.view2", "CvssVerif.Props.C14.queries_congr2",
+     "CvssVerif.Props.C14.view3_tokens", "CvssVerif.Props.C14.view2_tokens"],
     _c14,
     "accepted temporal / environmental vectors of both versions: score, severity and encoding obtained through BaseMetrics() and "
     "TemporalMetrics() against (a) the specification's value for the lower-level part and (b) a fresh lower-level decoder applied to the "
@@ -1411,7 +1417,7 @@ class ConcProp:
         except core.BuildError as e:
             out.violations.append(("build", "cannot build the harness with -race: %s" % str(e)[-300:], "", ""))
             return out
-        rounds = 8 if tier == "quick" else 200
+        rounds = 8 if tier == "quick" else 64
         G = 16
         total = 0
         kinds = {}
@@ -1426,7 +1432,7 @@ class ConcProp:
                     desc.append((ver, L, True))
             hs = []
             kind = "random histories"
-            nrep = 300 if tier == "quick" else 5000
+            nrep = 300 if tier == "quick" else 1500
             if r % 3 == 1:
                 # export storm: every goroutine exports over and over, each with its own template text, from reports of
                 # shared and of its own objects (rare interleavings inside the export path)
